@@ -59,7 +59,7 @@ impl<Req, Res, E> Trace<Req, Res, E> {
     pub open spec fn same_inner(self, o: Self) -> bool {
         self.calls == o.calls && self.done == o.done && self.last_req == o.last_req && self.last_done == o.last_done && self.reqs == o.reqs
             && self.created == o.created && self.unguarded == o.unguarded && self.guarded == o.guarded && self.held == o.held && self.admitted == o.admitted
-            && self.fb_calls == o.fb_calls && self.notes == o.notes
+            && self.fb_calls == o.fb_calls && self.notes == o.notes && self.blocked == o.blocked
     }
     pub open spec fn fresh(self) -> bool {
         self.ev.len() == 0 && self.calls == 0 && self.done == 0 && self.held.len() == 0 && self.held.finite() && self.unguarded == 0 && self.slept == 0
